@@ -105,6 +105,10 @@ LAYERED_SOILS = {
     # fine top over coarse subsoil (the reverse contrast)
     "clay_over_sand": {"type": "custom", "kw": {"dz": [0.1] * 12},
                        "layers": [[0.5, 0.32, 0.50, 0.54, 100.0, 100], [0.7, 0.06, 0.13, 0.36, 3000.0, 100]]},
+    # very permeable top over a subsoil of LOW conductivity but LARGE drainable porosity (a storm saturates the top; the subsoil is pushed above
+    # saturation and water has to be stored / passed on over several days)
+    "sand_over_porous": {"type": "custom", "kw": {"dz": [0.1] * 12, "cn": 40, "rew": 7},
+                         "layers": [[0.4, 0.06, 0.13, 0.36, 3000.0, 100], [0.8, 0.20, 0.33, 0.50, 10.0, 100]]},
     # layers declared only for the upper part of the grid: compartments below inherit the last layer
     "shallow_layers": {"type": "custom", "kw": {"dz": [0.1] * 14},
                        "layers": [[0.3, 0.10, 0.22, 0.41, 1200.0, 100], [0.4, 0.23, 0.39, 0.50, 125.0, 100]]},
@@ -366,6 +370,18 @@ def hard_cases(rnd, n=None, year=2001):
         # initial bund water above the bund height (capped at every season start), two seasons without off-season
         S("Tomato", "Paddy", seed=rnd.randrange(10 ** 6), seasons=2, field={"bunds": True, "z_bund": 0.05, "bund_water": 80}, iwc={"value": ["FC", "FC"], "depth_layer": [1, 2]}),
     ]
+    cases += [
+        # storms on a very permeable top layer over a subsoil of low conductivity and large drainable porosity
+        S("Maize", seed=rnd.randrange(10 ** 6), soil_spec=LAYERED_SOILS["sand_over_porous"], iwc={"value": ["FC", "FC"], "depth_layer": [1, 2]},
+          events=storm_events(year, (4, 20), (110, 70, 160, 90)) + [{"from": dstr(p0 + _dt.timedelta(days=12)), "to": dstr(p0 + _dt.timedelta(days=30)), "P": 0}]),
+        # bunds in the season only, water standing behind them at maturity, the removal day and the next days DRY, then a light shower
+        S("PaddyRice", "Paddy", seed=rnd.randrange(10 ** 6), regime="monsoon", field={"bunds": True, "z_bund": 0.2, "bund_water": 100}, off_season=True, seasons=2,
+          iwc={"value": ["SAT", "SAT"], "depth_layer": [1, 2]},
+          events=[{"from": dstr(p0 + _dt.timedelta(days=99)), "to": dstr(p0 + _dt.timedelta(days=109)), "P": 0}, {"date": dstr(p0 + _dt.timedelta(days=110)), "P": 2.0}]),
+        # a long drought (canopy far below the unstressed one), then the field is flooded behind bunds
+        S("Maize", "Clay", seed=rnd.randrange(10 ** 6), field={"bunds": True, "z_bund": 0.2}, iwc={"wc_type": "Pct", "value": [50]},
+          events=[{"from": dstr(p0), "to": dstr(p0 + _dt.timedelta(days=59)), "P": 0, "ET0": 6.5}] + [{"date": dstr(p0 + _dt.timedelta(days=60 + k)), "P": 150} for k in range(3)]),
+    ]
     # shallow ponds behind bunds under a canopy (pond of the order of a day's transpiration demand during the first days of submergence)
     cases += shallow_pond_cases(rnd, year, crops=("Maize", "Maize", "Tomato"), storms=(13, 22, 25))
     rnd.shuffle(cases)
@@ -381,18 +397,18 @@ def hard_cases(rnd, n=None, year=2001):
 def _pw_factors():
     F = {}
     F["crop"] = ["Maize", "Wheat", "Tomato", "Potato", "Default", "MaizeGDD", "WheatGDD", "SunflowerGDD", "WheatSwitch", "PaddyRice"]
-    F["soil"] = ["SandyLoam", "Clay", "Sand", "Paddy", "clay_over_sand", "sand_over_clay", "tight", "impeding_uneven", "shallow_layers"]
-    F["irr"] = ["none", "smt_stage", "smt_cap", "int1", "int7_eff", "sched_out", "net_low", "net_high_cap", "const_cap", "const_zero"]
-    F["field"] = ["none", "mulch", "bunds_low", "bunds_high", "bunds_off_params", "sr_inhb", "cn_adj", "bund_water_over"]
+    F["soil"] = ["SandyLoam", "Clay", "Sand", "Paddy", "clay_over_sand", "sand_over_clay", "sand_over_porous", "tight", "impeding_uneven", "shallow_layers"]
+    F["irr"] = ["none", "smt_stage", "smt_cap", "smt_100", "int1", "int7_eff", "sched_out", "net_low", "net_high_cap", "const_cap", "const_zero"]
+    F["field"] = ["none", "mulch", "mulch_full", "bunds_low", "bunds_high", "bunds_exact", "bunds_off_params", "sr_inhb", "cn_adj", "bund_water_over"]
     F["fallow"] = ["none", "mulch", "bunds", "cn_adj"]
-    F["gw"] = ["none", "shallow", "near_zmax", "far", "rising", "multi_const"]
+    F["gw"] = ["none", "surface", "shallow", "near_zmax", "far", "rising", "multi_const"]
     F["iwc"] = ["FC", "WP", "SAT", "pct40", "pct_depth_below", "pct_depth"]
     F["off"] = [False, True]
     F["lead"] = [0, 25]
     F["seasons"] = [1, 2, 3]
     F["plant"] = ["spring", "winter"]
-    F["wx"] = ["plain", "storms", "drought", "heat_flowering", "et0_floor", "yr_amp"]
-    F["co2"] = ["default", "const_high", "sparse"]
+    F["wx"] = ["plain", "storms", "drought", "heat_flowering", "cold_start", "et0_floor", "yr_amp"]
+    F["co2"] = ["default", "const_high", "const_2000", "sparse"]
     return F
 
 
@@ -450,12 +466,14 @@ def pairwise_scenario(row, seed, year=2001):
     sched = [[dstr(p0 + dt.timedelta(days=d)), a] for d, a in ((5, 20), (20, 35.5), (41, 12), (75, 60), (-10, 15), (400, 25), (365 + 30, 18))]
     irr = {"none": None, "smt_stage": {"method": 1, "kw": {"SMT": [40, 60, 75, 30]}},
            "smt_cap": {"method": 1, "kw": {"SMT": [80] * 4, "MaxIrr": 12, "MaxIrrSeason": 90, "AppEff": 70}},
+           "smt_100": {"method": 1, "kw": {"SMT": [100] * 4, "MaxIrr": 8}},
            "int1": {"method": 2, "kw": {"IrrInterval": 1, "MaxIrr": 3}},
            "int7_eff": {"method": 2, "kw": {"IrrInterval": 7, "AppEff": 85, "WetSurf": 40}},
            "sched_out": {"method": 3, "schedule": sched, "kw": {"MaxIrr": 30, "AppEff": 90}},
            "net_low": {"method": 4, "kw": {"NetIrrSMT": 35}}, "net_high_cap": {"method": 4, "kw": {"NetIrrSMT": 80, "MaxIrr": 5, "MaxIrrSeason": 40}},
            "const_cap": {"method": 5, "kw": {"depth": 6, "MaxIrrSeason": 180, "AppEff": 75}}, "const_zero": {"method": 5, "kw": {"depth": 0}}}[row["irr"]]
     field = {"none": None, "mulch": {"mulches": True, "mulch_pct": 70, "f_mulch": 0.6}, "bunds_low": {"bunds": True, "z_bund": 0.03, "bund_water": 10},
+             "mulch_full": {"mulches": True, "mulch_pct": 100, "f_mulch": 1.0}, "bunds_exact": {"bunds": True, "z_bund": 0.05, "bund_water": 50},
              "bunds_high": {"bunds": True, "z_bund": 0.2, "bund_water": 60}, "bunds_off_params": {"bunds": False, "z_bund": 0.2, "bund_water": 30},
              "sr_inhb": {"sr_inhb": True}, "cn_adj": {"curve_number_adj": True, "curve_number_adj_pct": 20},
              "bund_water_over": {"bunds": True, "z_bund": 0.05, "bund_water": 80}}[row["field"]]
@@ -463,7 +481,7 @@ def pairwise_scenario(row, seed, year=2001):
               "cn_adj": {"curve_number_adj": True, "curve_number_adj_pct": -25}}[row["fallow"]]
     z = zmax_of(crop, crop_kw)
     d0 = dstr(p0)
-    gw = {"none": None, "shallow": {"water_table": "Y", "dates": [d0], "values": [0.8]},
+    gw = {"none": None, "shallow": {"water_table": "Y", "dates": [d0], "values": [0.8]}, "surface": {"water_table": "Y", "dates": [d0], "values": [0.04]},
           "near_zmax": {"water_table": "Y", "dates": [d0], "values": [round(max(z - 0.02, 0.4), 2)]},
           "far": {"water_table": "Y", "dates": [d0], "values": [8.0]},
           "rising": {"water_table": "Y", "method": "Variable", "dates": [dstr(p0 - dt.timedelta(days=40)), dstr(p0 + dt.timedelta(days=70)), dstr(p0 + dt.timedelta(days=900))], "values": [2.4, 0.7, 1.9]},
@@ -481,11 +499,13 @@ def pairwise_scenario(row, seed, year=2001):
         events = drought_events(year, plant_md, 90)
     elif row["wx"] == "heat_flowering":
         events = [{"from": dstr(dt.date(year + k, *plant_md) + dt.timedelta(days=flower - 8)), "to": dstr(dt.date(year + k, *plant_md) + dt.timedelta(days=flower + 14)), "Tmax": 41.5, "Tmin": 27.0} for k in range(seasons)]
+    elif row["wx"] == "cold_start":
+        events = [{"from": dstr(dt.date(year + k, *plant_md)), "to": dstr(dt.date(year + k, *plant_md) + dt.timedelta(days=18)), "Tmax": 4.0, "Tmin": -2.0} for k in range(seasons)]
     elif row["wx"] == "et0_floor":
         events = [{"from": dstr(p0 + dt.timedelta(days=55)), "to": dstr(p0 + dt.timedelta(days=58)), "ET0": 0.1}, {"date": dstr(p0 + dt.timedelta(days=85)), "ET0": 0.1}]
     elif row["wx"] == "yr_amp":
         wparams = {"yr_amp": 3.0}
-    co2 = {"default": None, "const_high": {"constant_conc": True, "current_concentration": 552.0},
+    co2 = {"default": None, "const_high": {"constant_conc": True, "current_concentration": 552.0}, "const_2000": {"constant_conc": True, "current_concentration": 2000.0},
            "sparse": {"co2_data": [[1990, 355.0], [2000, 369.5], [2003, 378.0], [2010, 390.0]]}}[row["co2"]]
     harvest = None
     regime = "hot" if thermal else None
